@@ -149,7 +149,20 @@ fn norm(r: Result<Message, RepeError>, req: &Message) -> Norm {
 fn gen_body(r: &mut Rng, kind: &str) -> (u16, Vec<u8>) {
     let fmt = *r.pick(&[0u16, 1, 2, 3, 4, 0xffff, 1, 2]);
     let good_in = json!({"a": r.below(1000) as i64 - 500, "b": format!("s{}", r.below(100))});
-    let body = match r.below(9) {
+    let body = match r.below(11) {
+        9 => {
+            // one complete JSON value followed by trailing data: the owned and the borrowed decoder must agree
+            // on whether that is acceptable (trailing whitespace is; a second value / stray byte is not)
+            let mut v = serde_json::to_vec(&good_in).unwrap();
+            v.extend_from_slice(*r.pick(&[&b"{\"a\":2,\"b\":\"x\"}"[..], b",", b"}", b"\0", b" \n\t ", b"]", b"1", b" x"]));
+            v
+        }
+        10 => {
+            // the same for a JSON scalar / array body
+            let mut v = r.pick(&[&b"17"[..], b"\"fail\"", b"[1,2]", b"null"]).to_vec();
+            v.extend_from_slice(*r.pick(&[&b" "[..], b"\n", b",", b"0", b"\"", b"}"]));
+            v
+        }
         0 => vec![],
         1 => {
             let k = r.usize_below(40);
